@@ -119,6 +119,12 @@ class StockGen:
         if rng.random() < 0.45:
             feats.add("include")
             t[f"{prefix}_inc"] = "{% load c10lib %}" + self.body(1) + "{{ a }}{{ w }}"
+            if rng.random() < 0.4 and blocks:
+                # the included template is itself an extends-based family that re-uses the includer's block names
+                # (an included template renders with its own, isolated block state in stock Django)
+                feats.add("include-of-extends-family")
+                t[f"{prefix}_incbase"] = "{% load c10lib %}" + "".join("{% block " + b + " %}[ib-" + b + "]" + self.body(2) + "{% endblock %}" for b in blocks[:2]) + "{{ w }}"
+                t[f"{prefix}_inc"] = '{% extends "' + prefix + '_incbase" %}{% load c10lib %}' + "".join("{% block " + b + " %}" + ("{{ block.super }}" if rng.random() < 0.5 else "") + "[io-" + b + "]{% endblock %}" for b in blocks[:1])
             inc = rng.choice(['{% include "' + prefix + '_inc" %}', '{% include "' + prefix + '_inc" with w=n %}', '{% include "' + prefix + '_inc" with w="lit" only %}'])
             # put the include into the base template
             t[f"{prefix}_base"] += inc
